@@ -168,6 +168,8 @@ def RESULTS_OK(api, f):
         if isinstance(ann, _ast.Call):
             return True             # not an annotation of the type grammar
         want = 1
+        if isinstance(ann, _ast.Tuple):
+            want = len(ann.elts)        # `-> (int, bool)`: mypy reads a parenthesised tuple like tuple[int, bool]
         if isinstance(ann, _ast.Subscript) and _ast.unparse(ann.value) in ("tuple", "Tuple", "typing.Tuple"):
             elts = ann.slice.elts if isinstance(ann.slice, _ast.Tuple) else [ann.slice]
             if any(isinstance(e, _ast.Constant) and e.value is Ellipsis for e in elts):
